@@ -107,6 +107,8 @@ type strategyEngines struct {
 	digitPrefilter                 *prefilter.DigitPrefilter
 	digitRunSkipSafe               bool
 	ahoCorasick                    *ahocorasick.Automaton
+	ahoCorasickMaxLen              int  // length of the longest literal of ahoCorasick
+	ahoCorasickNested              bool // a literal of ahoCorasick occurs inside another one
 	finalStrategy                  Strategy
 }
 
@@ -126,15 +128,21 @@ func buildStrategyEngines(
 	if strategy == UseAhoCorasick && literals != nil && !literals.IsEmpty() {
 		builder := ahocorasick.NewBuilder()
 		litCount := literals.Len()
+		lits := make([][]byte, 0, litCount)
 		for i := 0; i < litCount; i++ {
 			lit := literals.Get(i)
 			builder.AddPattern(lit.Bytes)
+			lits = append(lits, lit.Bytes)
+			if len(lit.Bytes) > result.ahoCorasickMaxLen {
+				result.ahoCorasickMaxLen = len(lit.Bytes)
+			}
 		}
 		auto, err := builder.Build()
 		if err != nil {
 			result.finalStrategy = UseNFA
 		} else {
 			result.ahoCorasick = auto
+			result.ahoCorasickNested = prefilter.HasNestedLiteral(lits)
 		}
 		return result
 	}
@@ -601,12 +609,17 @@ func CompileRegexp(re *syntax.Regexp, config Config) (*Engine, error) {
 	var fatTeddyFallback *ahocorasick.Automaton
 	if strategy == UseTeddy {
 		if fatTeddy, ok := pf.(*prefilter.FatTeddy); ok {
-			builder := ahocorasick.NewBuilder()
-			for _, pattern := range fatTeddy.Patterns() {
-				builder.AddPattern(pattern)
-			}
-			if auto, err := builder.Build(); err == nil {
-				fatTeddyFallback = auto
+			// Only for literal sets without nesting: the automaton reports the occurrence
+			// that ends first, which is the leftmost-first match only if no literal occurs
+			// inside another one (xbc inside xbcd). Other sets always take the Teddy path.
+			if !prefilter.HasNestedLiteral(fatTeddy.Patterns()) {
+				builder := ahocorasick.NewBuilder()
+				for _, pattern := range fatTeddy.Patterns() {
+					builder.AddPattern(pattern)
+				}
+				if auto, err := builder.Build(); err == nil {
+					fatTeddyFallback = auto
+				}
 			}
 		}
 	}
@@ -656,6 +669,8 @@ func CompileRegexp(re *syntax.Regexp, config Config) (*Engine, error) {
 		digitPrefilter:                 engines.digitPrefilter,
 		digitRunSkipSafe:               engines.digitRunSkipSafe,
 		ahoCorasick:                    engines.ahoCorasick,
+		ahoCorasickMaxLen:              engines.ahoCorasickMaxLen,
+		ahoCorasickNested:              engines.ahoCorasickNested,
 		anchoredLiteralInfo:            anchoredLiteralInfo,
 		prefilter:                      pf,
 		prefilterPartialCoverage:       literals != nil && literals.IsPartialCoverage(),
